@@ -140,7 +140,7 @@ module Make_M (F : sig val name : string val focus : string end) = struct
     else
       let base = (if c.style = 3 then 1.0 else 0.3) *. (if c09 then 1.5 else 1.0) in
       base *. (match th.t_pc with
-          | EPark | DPark -> 2.2
+          | EPark | DPark -> 1.2
           | EAcq | DAcq -> 0.8
           | EIfErr | DIfErr -> if th.t_err then 0.1 else 1.6
           | ELock | DLock -> 1.6
